@@ -355,6 +355,46 @@ def _s4(program, res):
             res.fail_at("C13-S4", w, "nary-nonassociative", "a non-associative operator is collected into an n-ary expression", same[0])
 
 
+def _s8_kary_collapse(program, res):
+    """a chain `a op b op c …` of one precedence level is left-associative.  The walker may fold operands into one k-ary node only when the operators
+    between them are all the same associative one: under a test that the set of the chain's operators has one element, or for a *contiguous* run found
+    by a scan that stops at the first other operator.  Counting the occurrences of the leading operator anywhere in the chain folds `a + b - c + e`
+    into (a + b + c) + e"""
+    w = program.func("parse_by_lark", "_walk_lark_tree")
+    inner = [n for n in ast.walk(w.node) if isinstance(n, ast.FunctionDef) and n.name == "_r_walk_lark_tree"]
+    fn = inner[0]
+    g = cfgmod.build(fn)
+    n = 0
+    for node in g.stmt_nodes(("stmt", "return")):
+        for c in ast.walk(node.stmt):
+            if not (isinstance(c, ast.Call) and (dotted_name(c.func) or "").endswith("kop_expr") and c.args):
+                continue
+            if isinstance(c.args[0], ast.Constant) and c.args[0].value in ("and", "or"):
+                continue  # the conjunction of a comparison chain / boolean chains: every operator of those chains is the same by construction
+            guards = [unparse(b.cond) for b, lab in g.lexical_guards(node) if lab is True]
+            if not any("arith_expr" in t_ or "'term'" in t_ or '"term"' in t_ for t_ in guards):
+                continue  # or_test / and_test nodes: the grammar joins all their children by the one operator of the node
+            n += 1
+            all_same = any(("len(set(" in t_ and "== 1" in t_) or ("all(" in t_ and "==" in t_) for t_ in guards)
+            contiguous = False
+            # the number of folded operands comes from a scan with an early exit
+            names = {x.id for a_ in c.args[1:2] for x in ast.walk(a_) if isinstance(x, ast.Name)}
+            for lp in ast.walk(fn):
+                if isinstance(lp, (ast.For, ast.While)) and any(isinstance(b_, ast.Break) for b_ in ast.walk(lp)) \
+                        and any(isinstance(t_, ast.Name) and t_.id in names for st in ast.walk(lp) if isinstance(st, (ast.Assign, ast.AugAssign)) for t_ in ast.walk(st.targets[0] if isinstance(st, ast.Assign) else st.target)):
+                    contiguous = True
+            if any(isinstance(x, ast.Call) and (dotted_name(x.func) or "").endswith("takewhile") for x in ast.walk(fn)):
+                contiguous = True
+            if all_same or contiguous:
+                res.ok("C13-S8", f"k-ary `{unparse(c.args[0])}` node is built only for operands joined by one and the same operator")
+            else:
+                res.fail_at("C13-S8", w, "kary-collapse-across-other-operators",
+                            f"`{unparse(c)[:70]}` folds operands into one k-ary node without a test that the operators between them are all the same (guards: {guards[-2:]}): "
+                            f"`a + b - c + e` is read as (a + b + c) + e — 19 where Python gives 9 — and `a * b / c * e` as (a * b * c) * e", c)
+    if n < 1:
+        raise AnalysisError("_r_walk_lark_tree: the k-ary fold of arithmetic chains (kop_expr) was not found")
+
+
 def _s7_call_forms(program, res):
     """f(x, …) with f the name of a Term method has to go through that method (which checks how many and which arguments it takes): building the
     expression directly lets round(a, 1) or shift(a, 0) through, and SQL drops the extra argument.  The argument list of the grammar ends in an
@@ -378,8 +418,11 @@ def _s7_call_forms(program, res):
         while blk is not None and not isinstance(blk, (ast.If, ast.FunctionDef)):
             blk = parents.get(blk)
         scope = blk.orelse if isinstance(blk, ast.If) and any(c in list(ast.walk(x)) for x in blk.orelse) else (blk.body if blk is not None else [])
+        def _method_call(e):
+            return isinstance(e, ast.Call) and isinstance(e.func, ast.Call) and dotted_name(e.func.func) == "getattr"
+        via_local = {t_.id for st in scope for a_ in ast.walk(st) if isinstance(a_, ast.Assign) and _method_call(a_.value) for t_ in a_.targets if isinstance(t_, ast.Name)}
         dispatches = any(isinstance(x, ast.Call) and dotted_name(x.func) == "getattr" and len(x.args) >= 2 and "Term" in unparse(x.args[0]) for st in scope for x in ast.walk(st)) \
-            and any(isinstance(x, ast.Return) and isinstance(x.value, ast.Call) and isinstance(x.value.func, ast.Call) and dotted_name(x.value.func.func) == "getattr"
+            and any(isinstance(x, ast.Return) and (_method_call(x.value) or (isinstance(x.value, ast.Name) and x.value.id in via_local))
                     for st in scope for x in ast.walk(st))
         if dispatches:
             res.ok("C13-S6", "the function form f(x, …) of a Term method is handed to the method x.f(…)")
@@ -578,6 +621,8 @@ def run(program, res, tier):
     res.rule("C13-S6", "the walker unpacks a child's children only where the grammar guarantees the child keeps its own node (or after testing its kind)")
     _s6(program, res)
     _s7_call_forms(program, res)
+    res.rule("C13-S8", "k-ary arithmetic nodes hold operands joined by one and the same operator")
+    _s8_kary_collapse(program, res)
     res.rule("C13-S7", "every operator a Term method can build prints as text the walker accepts")
     printable_ops_rule(program, res)
     printable_literals_rule(program, res)
